@@ -10,7 +10,7 @@ from .. import recon as R
 ID = "C07"
 LEVEL = "proof"
 PROP_FILE = "Properties/C07.v"
-PROOF_FILES = ["Gen/ThlGen.v", "Proofs/ThlGenProofs.v", "Gen/TableGen.v", "Proofs/TableGenProofs.v", "Gen/EvalGen.v", "Proofs/EvalGenProofs.v", "Proofs/LcaNodeProofs.v", "Proofs/LcaProofs.v", "Proofs/ReconProofs.v", "Proofs/PathFacts.v", "Model/LcaRec.v", "Model/Recon.v", "Base/PathB.v", "Base/Ext.v"]
+PROOF_FILES = ["Proofs/ReviewCLcaBound.v", "Gen/ThlGen.v", "Proofs/ThlGenProofs.v", "Gen/TableGen.v", "Proofs/TableGenProofs.v", "Gen/EvalGen.v", "Proofs/EvalGenProofs.v", "Proofs/LcaNodeProofs.v", "Proofs/LcaProofs.v", "Proofs/ReconProofs.v", "Proofs/PathFacts.v", "Model/LcaRec.v", "Model/Recon.v", "Base/PathB.v", "Base/Ext.v"]
 TRUSTED = ["translator translator/pyfun.py + translator/thl_gen.py: reconcile_lca of compute/reconciliation.py is translated into Gen/ThlGen.v on every run and proved to return the dictionary denoting Model/LcaRec.v's reconciliation (C07_gen_reconcile_lca_eq; object nodes = identifiers, the species LCA structure = the path operation lcp)", "models Model/LcaRec.v (reconcile_lca) and Model/Recon.v (cost evaluator) over bool root paths; "
            "that the implementation's ancestry queries are the path notions is property C17"]
 ASSUMES = ["species trees are binary; object trees are binary"]
